@@ -5,7 +5,7 @@ use std::collections::HashMap;
 use cucumber::event::{self, Cucumber};
 use serde_json::json;
 
-use super::{Ev, SProfile, Tree, What, c11, c12, c13, decode, describe_stream, gen_tree, linearise, linearise_with, name_table, src_ptr, verdict};
+use super::{Ev, SProfile, Tree, What, c11, c12, c13, decode, describe_stream, gen_tree, linearise, linearise_full, name_table, src_ptr, verdict};
 use crate::{
     engine::{CaseOut, Ctx, Exhaustive, Input, Property, Tier, Violation},
     lab,
@@ -487,11 +487,13 @@ impl Property for StreamProp {
             return None;
         }
         // all linearisations of small run trees
-        let n_trees: u64 = if tier == Tier::Quick { 16 } else { 300 };
-        let cap: usize = if tier == Tier::Quick { 1500 } else { 40_000 };
+        let n_trees: u64 = if tier == Tier::Quick { 24 } else { 400 };
+        let cap: usize = if tier == Tier::Quick { 4000 } else { 40_000 };
+        let max_events: usize = if tier == Tier::Quick { 15 } else { 17 };
         let p = SProfile { max_features: 2, max_scenarios: 1, max_rules: 1, max_rule_scenarios: 1, max_steps: 1, max_bg: 0, p_before: 0, p_after: 10, p_retry: 35, p_parser_error: 10, p_sequential: 0, ..SProfile::default() };
         let mut complete = true;
         let mut total = 0u64;
+        let (mut included, mut truncated) = (0u64, 0u64);
         'trees: for ti in (0..n_trees).filter(|t| t % shard.1 == shard.0) {
             let a = tape_from_seed(crate::tape::mix(0xC11, ti), 200);
             let mut prefix: Vec<usize> = vec![];
@@ -502,7 +504,7 @@ impl Property for StreamProp {
                 let tree = gen_tree(&mut ta, &p);
                 let mut branching: Vec<(usize, usize)> = vec![];
                 let mut i = 0usize;
-                let stream = linearise_with(
+                let stream = linearise_full(
                     &mut |k| {
                         let c = prefix.get(i).copied().unwrap_or(0).min(k.saturating_sub(1));
                         i += 1;
@@ -516,9 +518,10 @@ impl Property for StreamProp {
                     &tree,
                     false,
                     true,
+                    true,
                 );
-                if stream.len() > 16 {
-                    break; // tree too large for exhaustive enumeration
+                if stream.len() > max_events {
+                    break; // tree outside the enumerated sub-space
                 }
                 let out = judge_c11(&tree, &stream, false, &Ctx { want_sample: n == 0 && ti < 2, tier, known: ctx.known.clone(), strict: false });
                 total += 1;
@@ -540,14 +543,18 @@ impl Property for StreamProp {
                 match next {
                     Some(np) if n < cap => prefix = np,
                     Some(_) => {
-                        complete = false;
+                        truncated += 1;
                         break;
                     }
-                    None => break,
+                    None => {
+                        included += 1;
+                        break;
+                    }
                 }
             }
         }
-        Some(Exhaustive { description: format!("all happened-before-respecting linearisations (cap {cap} per tree) of {n_trees} small run trees (<=2 features, <=1+1 scenarios, <=1 step, retry chains, <=16 events); this shard: {total} streams"), complete })
+        let _ = total;
+        Some(Exhaustive { description: format!("all happened-before-respecting linearisations (cap {cap} per tree) of those of {n_trees} generated small run trees (<=2 features, <=1+1 scenarios each, <=1 step, retry chains) that have <= {max_events} events and at most {cap} linearisations (parser items pinned right behind run-Started), sharded over the workers"), complete, included, truncated })
     }
 }
 
